@@ -1,0 +1,158 @@
+//! Verification hook, compiled only with `--cfg gmsol_verif`.
+//!
+//! Thin public wrappers around the crate-private pieces of the revertible market buffer, so that an
+//! external deterministic simulator can drive `begin / read / write / commit / abandon` sequences on
+//! an in-memory [`Market`] account. Every function delegates to the production code path; nothing here
+//! is part of a normal build.
+
+use anchor_lang::prelude::*;
+use gmsol_model::{ClockKind, PoolKind};
+
+use crate::{
+    events::EventEmitter,
+    states::{
+        market::{pool::Pool, Clocks},
+        Market, OtherState, PoolStorage,
+    },
+};
+
+use super::{Revertible, RevertibleMarket, Revision};
+
+/// Begin a revertible operation: [`RevertibleMarket::new`] without virtual inventories.
+pub fn begin<'a, 'info>(
+    market: &'a AccountLoader<'info, Market>,
+    event_authority: &'a AccountInfo<'info>,
+    event_authority_bump: u8,
+) -> Result<RevertibleMarket<'a, 'info>> {
+    RevertibleMarket::new(
+        market,
+        None,
+        EventEmitter::new(event_authority, event_authority_bump),
+    )
+}
+
+/// Revision of the operation.
+pub fn rev(op: &RevertibleMarket<'_, '_>) -> u64 {
+    Revision::rev(op)
+}
+
+/// Read a pool inside the operation.
+pub fn pool<'m>(op: &'m RevertibleMarket<'_, '_>, kind: PoolKind) -> gmsol_model::Result<&'m Pool> {
+    op.pool(kind)
+}
+
+/// Get a pool for writing inside the operation.
+pub fn pool_mut<'m>(
+    op: &'m mut RevertibleMarket<'_, '_>,
+    kind: PoolKind,
+) -> gmsol_model::Result<&'m mut Pool> {
+    op.pool_mut(kind)
+}
+
+/// Read a clock inside the operation.
+pub fn clock(op: &RevertibleMarket<'_, '_>, kind: ClockKind) -> Option<i64> {
+    op.clocks().get(kind).copied()
+}
+
+/// Write a clock inside the operation. Returns `false` for an unknown kind.
+pub fn set_clock(op: &mut RevertibleMarket<'_, '_>, kind: ClockKind, value: i64) -> bool {
+    match op.clocks_mut().get_mut(kind) {
+        Some(clock) => {
+            *clock = value;
+            true
+        }
+        None => false,
+    }
+}
+
+/// Read the other state inside the operation.
+pub fn other<'m>(op: &'m RevertibleMarket<'_, '_>) -> &'m OtherState {
+    op.other()
+}
+
+/// Fields of [`OtherState`].
+#[derive(Clone, Copy, Debug, PartialEq, Eq)]
+pub enum OtherField {
+    /// `trade_count`
+    TradeCount,
+    /// `long_token_balance`
+    LongTokenBalance,
+    /// `short_token_balance`
+    ShortTokenBalance,
+    /// `funding_factor_per_second`
+    FundingFactorPerSecond,
+}
+
+/// Write one field of the other state inside the operation (values are truncated to the field type).
+pub fn set_other(op: &mut RevertibleMarket<'_, '_>, field: OtherField, value: i128) {
+    let other = op.other_mut();
+    match field {
+        OtherField::TradeCount => other.trade_count = value as u64,
+        OtherField::LongTokenBalance => other.long_token_balance = value as u64,
+        OtherField::ShortTokenBalance => other.short_token_balance = value as u64,
+        OtherField::FundingFactorPerSecond => other.funding_factor_per_second = value,
+    }
+}
+
+/// [`RevertibleMarket::next_trade_id`].
+pub fn next_trade_id(op: &mut RevertibleMarket<'_, '_>) -> Result<u64> {
+    op.next_trade_id()
+}
+
+/// [`RevertibleMarket::record_transferred_in`].
+pub fn record_transferred_in(
+    op: &mut RevertibleMarket<'_, '_>,
+    is_long_token: bool,
+    amount: u64,
+) -> Result<()> {
+    op.record_transferred_in(is_long_token, amount)
+}
+
+/// [`RevertibleMarket::record_transferred_out`].
+pub fn record_transferred_out(
+    op: &mut RevertibleMarket<'_, '_>,
+    is_long_token: bool,
+    amount: u64,
+) -> Result<()> {
+    op.record_transferred_out(is_long_token, amount)
+}
+
+/// Commit the operation (the real [`Revertible::commit`]).
+pub fn commit(op: RevertibleMarket<'_, '_>) {
+    Revertible::commit(op)
+}
+
+/// Abandon the operation: drop it without committing.
+pub fn abandon(op: RevertibleMarket<'_, '_>) {
+    drop(op)
+}
+
+/// Bytes of the stored (committed) market state.
+pub fn storage_bytes(market: &Market) -> &[u8] {
+    bytemuck::bytes_of(&market.state)
+}
+
+/// Stored pool of the given kind, with its revision.
+pub fn storage_pool(market: &Market, kind: PoolKind) -> Option<&PoolStorage> {
+    market.state.pools.get(kind)
+}
+
+/// Stored clocks.
+pub fn storage_clocks(market: &Market) -> &Clocks {
+    &market.state.clocks
+}
+
+/// Stored value of a clock.
+pub fn storage_clock(market: &Market, kind: ClockKind) -> Option<i64> {
+    market.state.clocks.get(kind).copied()
+}
+
+/// Revision counter of the buffer.
+pub fn buffer_rev(market: &Market) -> u64 {
+    market.buffer.rev()
+}
+
+/// Bytes of the revertible buffer (revision counter and cached state).
+pub fn buffer_bytes(market: &Market) -> &[u8] {
+    bytemuck::bytes_of(&market.buffer)
+}
